@@ -18,13 +18,20 @@ import base64
 import dataclasses
 import re
 import types
+from contextvars import ContextVar
 from datetime import date, datetime, time
 from typing import Any, Callable, TypeVar, Union, get_args, get_origin, get_type_hints
 from uuid import UUID
 
 import cattrs
 from cattrs.errors import BaseValidationError, ClassValidationError, IterableValidationError
-from cattrs.gen import make_dict_structure_fn, make_dict_unstructure_fn, override
+from cattrs.gen import (
+    make_dict_structure_fn,
+    make_dict_unstructure_fn,
+    make_iterable_unstructure_fn,
+    make_mapping_unstructure_fn,
+    override,
+)
 
 T = TypeVar("T")
 
@@ -105,6 +112,58 @@ def snake_to_camel(name: str) -> str:
 
 # Global converter instance with automatic name transformation
 converter = cattrs.Converter()
+
+# Reference-cycle guard (used by DataclassSerializer): while it is set, it holds the ids of the dataclass
+# instances, lists and dicts whose unstructuring is in progress.
+_objects_in_progress: ContextVar[set[int] | None] = ContextVar("_objects_in_progress", default=None)
+
+
+def _with_cycle_guard(unstructure_fn: Callable[[Any], Any]) -> Callable[[Any], Any]:
+    """
+    Wrap the unstructure function of a container type so that reference cycles are cut.
+
+    Scenario:
+        An object graph with a reference cycle is unstructured while the guard is active
+        (unstructure_to_dict was given the set of visited object ids).
+
+    Expected Outcome:
+        An object that is reached again while it is still being unstructured becomes None instead of
+        being followed for ever. Without an active guard the wrapped function is called unchanged.
+    """
+
+    def guarded(obj: Any) -> Any:
+        in_progress = _objects_in_progress.get()
+        if in_progress is None or isinstance(obj, str):  # (a str never holds a reference to itself)
+            return unstructure_fn(obj)
+        obj_id = id(obj)
+        if obj_id in in_progress:
+            return None
+        in_progress.add(obj_id)
+        try:
+            return unstructure_fn(obj)
+        finally:
+            in_progress.discard(obj_id)
+
+    return guarded
+
+
+def _guarded_container_unstructure_fn(t: Any) -> Callable[[Any], Any]:
+    """The converter's standard unstructure function for a list, dict or dataclass type, behind the cycle guard."""
+    origin = get_origin(t) or t
+    if origin is list:
+        return _with_cycle_guard(make_iterable_unstructure_fn(t, converter, unstructure_to=list))
+    if origin is dict:
+        return _with_cycle_guard(make_mapping_unstructure_fn(t, converter, unstructure_to=dict))
+    return _with_cycle_guard(converter.gen_unstructure_attrs_fromdict(t))
+
+
+def _is_container_type(t: Any) -> bool:
+    """A list, dict or dataclass type: the containers that can take part in a reference cycle."""
+    origin = get_origin(t) or t
+    return origin is list or origin is dict or (isinstance(t, type) and dataclasses.is_dataclass(t))
+
+
+converter.register_unstructure_hook_factory(_is_container_type, _guarded_container_unstructure_fn)
 
 
 def _make_dataclass_structure_fn(cls: type[T]) -> Any:
@@ -904,7 +963,7 @@ def _register_unstructure_hooks_recursively(cls: type[Any], visited: set[type[An
 
         converter.register_unstructure_hook_func(
             predicate,
-            make_hook(cls),
+            _with_cycle_guard(make_hook(cls)),
         )
     except Exception:  # nosec B110
         # Hook might already be registered - this is expected and safe to ignore
@@ -931,7 +990,7 @@ def _register_unstructure_hooks_recursively(cls: type[Any], visited: set[type[An
         _register_hooks_for_nested_types(field_type, visited, _register_unstructure_hooks_recursively)
 
 
-def unstructure_to_dict(instance: Any) -> dict[str, Any]:
+def unstructure_to_dict(instance: Any, visited: set[int] | None = None) -> dict[str, Any]:
     """
     Unstructure dataclass instance to dict with automatic field name transformation.
 
@@ -945,6 +1004,10 @@ def unstructure_to_dict(instance: Any) -> dict[str, Any]:
 
     Args:
         instance: Dataclass instance
+        visited: Optional set of ids of the objects that enclose the instance. When given, reference
+            cycles are cut: a dataclass instance, list or dict that is in the set, or that is reached
+            again while it is being unstructured, becomes None (the set is updated during the call
+            and left as it was).
 
     Returns:
         Dictionary representation
@@ -955,8 +1018,12 @@ def unstructure_to_dict(instance: Any) -> dict[str, Any]:
     if dataclasses.is_dataclass(cls):
         _register_unstructure_hooks_recursively(cls)
 
-    result: dict[str, Any] = converter.unstructure(instance)
-    return result
+    token = _objects_in_progress.set(visited)
+    try:
+        result: dict[str, Any] = converter.unstructure(instance)
+        return result
+    finally:
+        _objects_in_progress.reset(token)
 
 
 __all__ = [
